@@ -23,7 +23,10 @@ def get_trans(env, unsafe=False):
         if os.path.exists(fn) and not os.environ.get("PFZ_NO_CACHE"):
             try:
                 with open(fn, "rb") as fh:
-                    return pickle.load(fh)
+                    res, cover = pickle.load(fh)
+                import interp
+                interp.COVER.update(cover)
+                return res
             except Exception:
                 pass
         res, dt = trans.all_transitions(env.prog, env.ctx, depth_bound=env.depth_bound(), unsafe_mode=(None if unsafe else False),
@@ -32,8 +35,9 @@ def get_trans(env, unsafe=False):
             os.makedirs(d, exist_ok=True)
             sys.setrecursionlimit(100000)
             tmp = fn + ".tmp%d" % os.getpid()
+            import interp
             with open(tmp, "wb") as fh:
-                pickle.dump(res, fh, protocol=4)
+                pickle.dump((res, sorted(interp.COVER)), fh, protocol=4)
             os.replace(tmp, fn)
         except Exception as e:
             sys.stderr.write("note: transition cache not written: %r\n" % (e,))
